@@ -6,6 +6,8 @@
 import Tranp.Lemmas.Engine
 import Tranp.Lemmas.EngineWF
 import Tranp.Lemmas.EngineChain
+import Tranp.Lemmas.EngineLadder
+import Tranp.Model.Ladder
 import Tranp.Generated.PyRules
 import Tranp.Generated.GramRules
 
@@ -118,6 +120,45 @@ theorem T2_else_syntax (env : Env) (fuel : Nat) (source : Str) (toks : List Tok)
   | none => simp [hp] at hl
   | some line => exact ⟨_, rfl⟩
 
+/-- `T2_else_syntax` with a guard on the INPUT instead of on the cause token: if there is at least one token and every
+    token's `begin_line` is a line of the source or the EOF marker -1 (true of every token list the tokenizer produces: C13),
+    then whenever the matcher finishes without consuming every token, the outcome is `Errors.Syntax` — the summary cannot
+    fail. (The known finding `error-line:eof-derived-cause-token` concerns the line NUMBER printed for -1, not this.) -/
+theorem T2_else_syntax_guarded (env : Env) (fuel : Nat) (source : Str) (toks : List Tok) (entry : Str) (out : Out)
+    (hm : matchSymbol env fuel (Ctx.start toks) 0 entry = .ok out) (hs : out.steps ≠ toks.length)
+    (hne : toks ≠ [])
+    (hmap : ∀ t ∈ toks, -1 ≤ t.map.bl ∧ t.map.bl < (Str.splitOn '\n' source).length) :
+    ∃ msg, parse env fuel source toks entry = .error (.syntax msg) := by
+  have hlen : 0 < toks.length := List.length_pos_iff.mpr hne
+  have hidx : causeIndex toks.length out.peek < toks.length := by unfold causeIndex; omega
+  have hc : toks[causeIndex toks.length out.peek]? = some (toks[causeIndex toks.length out.peek]) :=
+    List.getElem?_eq_getElem hidx
+  refine T2_else_syntax env fuel source toks entry out hm hs _ hc ?_
+  have hmem : toks[causeIndex toks.length out.peek] ∈ toks := List.getElem_mem hidx
+  obtain ⟨h1, h2⟩ := hmap _ hmem
+  have hpos : 0 < (Str.splitOn '\n' source).length := by
+    cases source with
+    | nil => simp [Str.splitOn]
+    | cons c cs =>
+      simp only [Str.splitOn]
+      split
+      · simp
+      · split <;> simp
+  unfold pyIndex
+  split
+  · rename_i h0
+    have : (toks[causeIndex toks.length out.peek]).map.bl.toNat < (Str.splitOn '\n' source).length := by omega
+    simp [List.getElem?_eq_getElem this]
+  · rename_i h0
+    have hb : (toks[causeIndex toks.length out.peek]).map.bl = -1 := by omega
+    rw [hb]
+    have h1' : (-1 : Int).natAbs = 1 := rfl
+    simp only [h1']
+    have : 1 ≤ (Str.splitOn '\n' source).length := hpos
+    simp only [this, ↓reduceIte]
+    have : (Str.splitOn '\n' source).length - 1 < (Str.splitOn '\n' source).length := by omega
+    simp [List.getElem?_eq_getElem this]
+
 /-! ## T3 — yield -/
 
 /-- The consumed tokens of a successful match are exactly the span under the cursor, in source order, each consumed once;
@@ -183,6 +224,69 @@ theorem T4_ladders_py :
 
 /-- non-vacuity of T4: the rule `s` of `sumRules` is a ladder -/
 example : getRule sumRules ['s'] = .ok (ladder ['n'] ['o', 'p']) := by decide
+
+/-! ## group_partial — operator grouping of the py ladders -/
+
+/-- comparison / arithmetic ladder of py_gram.lark, loosest first; bottom symbol `unary` -/
+def pyArith : List (Str × Str) :=
+  [(['c','o','m','p'], ['o','p','_','c','o','m','p']),
+   (['c','a','l','c','_','s','u','m'], ['o','p','_','a','d','d']),
+   (['c','a','l','c','_','m','u','l'], ['o','p','_','m','u','l'])]
+
+/-- boolean ladder of py_gram.lark; bottom symbol `comp_not` -/
+def pyBool : List (Str × Str) :=
+  [(['c','o','m','p','_','o','r'], ['o','p','_','o','r']), (['c','o','m','p','_','a','n','d'], ['o','p','_','a','n','d'])]
+
+def sUnary : Str := ['u','n','a','r','y']
+def sCompNot : Str := ['c','o','m','p','_','n','o','t']
+
+/-- In the generated table `comp > calc_sum > calc_mul` (over `unary`) and `comp_or > comp_and` (over `comp_not`) are
+    ladders in the sense of `ladOK`: each rule is `(next op)* next` with `next` the following rule. -/
+theorem group_ladders_py :
+    ladOK Generated.pyRules pyArith sUnary = true ∧ ladOK Generated.pyRules pyBool sCompNot = true := by
+  decide +kernel
+
+/-- **C11.group_partial (comparison / arithmetic).** For every regexp oracle, every token list and cursor: whatever the
+    engine matches for `comp` — any mix of comparison (`< > == <= >= != in, not in, is, is not`), additive (`+ -`) and
+    multiplicative (`* / %`) operators over `unary` operands (opaque here: `-x`, names, literals, calls, indexing,
+    parenthesised expressions, …) — decomposes into operand and operator matches that cover exactly the consumed tokens in
+    source order, and the precedence-climbing reference parser of `Tranp.Prec`, run on that same (abstracted) token list
+    with the level order comparison < additive < multiplicative, returns exactly the expression the engine's flat chains
+    stand for when read as CPython reads them: left-nested within `calc_sum` / `calc_mul`, one flat comparison chain per
+    `comp` (Prec's `chain` level groups like `infixl`; a `Compare` node is its flattening). -/
+theorem group_partial_arith (env : Env) (hr : env.rules = Generated.pyRules) (c : Codes) (hK : 3 ≤ c.K)
+    (ctx : Ctx) (fuel pk : Nat) (out : Out)
+    (h : matchSymbol env fuel ctx pk ['c','o','m','p'] = .ok out) (hk : out.ok = true) :
+    ∃ e segs, LvP env c pyArith sUnary 0 ctx out.steps e segs ∧ segs.flatMap (·.2) = span ctx 0 out.steps ∧
+      Prec.parse (ladOps c.K) (segs.map (·.1)) = some e :=
+  ladder_group env c pyArith sUnary (by rw [hr]; exact group_ladders_py.1) hK ctx fuel pk out h hk
+
+/-- **C11.group_partial (boolean).** The same for `comp_or`: `or` / `and` over `comp_not` operands (opaque: `not x`,
+    comparisons, arithmetic, …), level order `or` < `and`; a bare `or`/`and` chain is one flat chain (CPython's n-ary
+    `BoolOp` is its flattening). -/
+theorem group_partial_bool (env : Env) (hr : env.rules = Generated.pyRules) (c : Codes) (hK : 2 ≤ c.K)
+    (ctx : Ctx) (fuel pk : Nat) (out : Out)
+    (h : matchSymbol env fuel ctx pk ['c','o','m','p','_','o','r'] = .ok out) (hk : out.ok = true) :
+    ∃ e segs, LvP env c pyBool sCompNot 0 ctx out.steps e segs ∧ segs.flatMap (·.2) = span ctx 0 out.steps ∧
+      Prec.parse (ladOps c.K) (segs.map (·.1)) = some e :=
+  ladder_group env c pyBool sCompNot (by rw [hr]; exact group_ladders_py.2) hK ctx fuel pk out h hk
+
+/-- level of an operator spelling in CPython's table (`Ladder.pyTable`, the table C02 proves equal to the grammar of CPython) -/
+def cpyLevel (s : Str) : Option Nat := (Ladder.opCode s).bind (Ladder.pyTable.ops.bin)
+
+/-- The ladders' level order is CPython's: `or` < `and` < every comparison operator < `+ -` < `* / %`, all operators of
+    one ladder rule on one CPython level (the spellings are those the operator rules `op_or, op_and, op_comp, op_add, op_mul`
+    can match). -/
+theorem group_levels_cpython :
+    cpyLevel ['o','r'] = some 0 ∧ cpyLevel ['a','n','d'] = some 1 ∧
+    ([['<'], ['>'], ['=','='], ['<','='], ['>','='], ['!','='], ['i','n'], ['n','o','t',' ','i','n'], ['i','s'], ['i','s',' ','n','o','t']].all
+      fun s => cpyLevel s == some 3) = true ∧
+    ([['+'], ['-']].all fun s => cpyLevel s == some 8) = true ∧
+    ([['*'], ['/'], ['%']].all fun s => cpyLevel s == some 9) = true := by
+  decide +kernel
+
+/-- non-vacuity of group_partial on the hand-made ladder `s := (n op)* n`: `1+2+3` is read as `(1+2)+3` -/
+example : ladOK sumRules [(['s'], ['o', 'p'])] ['n'] = true := by decide
 
 /-! ## T5 — error line -/
 
